@@ -464,7 +464,8 @@ def svcAlpns : Bytes → Outcome (List Bytes)
 termination_by l => l.length
 decreasing_by simp only [List.length_drop, List.length_cons]; omega
 
-/-- `SvcParamValue::read` on the parameter's slice (trailing octets after a port are ignored) -/
+/-- `SvcParamValue::read` on the parameter's slice (a `port` value is exactly two octets: /repo fix
+for C02-F3, `if len != 2 { return Err(IncorrectRDataLengthRead) }`) -/
 def svcValue (key : Nat) (d : Bytes) : Outcome SvcVal :=
   if key = 0 then
     match svcKeys d with
@@ -481,8 +482,8 @@ def svcValue (key : Nat) (d : Bytes) : Outcome SvcVal :=
   else if key = 2 then (if d.length > 0 then .err else .ok .noDefaultAlpn)
   else if key = 3 then
     match d with
-    | a :: b :: _ => .ok (.port (a * 256 + b))
-    | _ => .err
+    | [a, b] => .ok (.port (a * 256 + b))
+    | _ => .err                                              -- `len != 2`
   else if key = 4 then (if d.length % 4 = 0 then .ok (.ipv4hint d) else .err)
   else if key = 5 then .ok (.ech d)
   else if key = 6 then (if d.length % 16 = 0 then .ok (.ipv6hint d) else .err)
